@@ -6,7 +6,7 @@ from spec import registers as SR
 from ..bits import BV, TOP, Aff, b_or, lit
 from ..interp import State, Unsupported
 from ..values import UNIT, Array, Enum, Opaque, Ptr, Ref, Struct
-from .common import U16, U64, adt, arg_obj, bv, enum_val, eval_value, fn_site, inner, same, sl
+from .common import asm_not_pure, U16, U64, adt, arg_obj, bv, enum_val, eval_value, fn_site, inner, same, sl
 
 LEVEL = 'proof'
 CR = 'registers::control::x86_64::<impl registers::control::'
@@ -229,6 +229,7 @@ def run(chk):
     G('wrapper', 'rflags', lambda: rflags(w))
     G('wrapper', 'mxcsr', lambda: mxcsr(w))
     G('census', 'asm blocks', lambda: census(w))
+    chk.guard('asm-options', 'register wrappers', lambda: asm_not_pure(chk, chk.I, 'asm-options', ['src/registers/', 'src/instructions/segmentation.rs', 'src/instructions/tables.rs'], 45))
     chk.floor('wrapper obligations', chk.rules.get('wrapper', 0), 220)
 
 
